@@ -281,6 +281,13 @@ func (s *State) evalInternal(node any) object.Object { //nolint:funlen,gocognit,
 		return s.evalBuiltin(node)
 	case *ast.FunctionLiteral:
 		name := node.Name
+		for i, p := range node.Parameters {
+			for _, q := range node.Parameters[:i] {
+				if p.Value().Literal() == q.Value().Literal() && p.Value().Literal() != ".." {
+					return s.Errorf("duplicate parameter name %s", p.Value().Literal())
+				}
+			}
+		}
 		fn := object.Function{
 			Parameters: node.Parameters,
 			Name:       name,
